@@ -21,6 +21,7 @@ type FuncResult struct {
 	Ctx      *FuncCtx
 	Query    *Query
 	Secs     float64
+	Skipped  bool
 }
 
 func (e *Engine) axiomTerms() ([]string, error) {
@@ -51,6 +52,12 @@ func (e *Engine) generate(keys []string) []*FuncResult {
 			continue
 		}
 		con := e.byKey[k]
+		if con != nil && con.Trusted {
+			// an assumed (API-level) summary: its body is not verified; listed as an assumption
+			r.Skipped = true
+			out = append(out, r)
+			continue
+		}
 		t0 := time.Now()
 		q, fc, err := e.verifyFunction(fn, con)
 		r.Secs = time.Since(t0).Seconds()
@@ -112,7 +119,17 @@ func (e *Engine) solveAll(results []*FuncResult, timeoutS int, workers int, keep
 				o := j.r.Obls[j.i]
 				text := e.queryText(prelude, j.r.Query, o)
 				base := fmt.Sprintf("q%p_%d", j.r, j.i)
-				v := race(tmp, base, text, timeoutS, true)
+				var v Verdict
+				if o.Cover {
+					// vacuity guards only need "not unsat": one solver, short limit
+					r := runSolver(solvers[0], tmp, base, text, 2)
+					v = Verdict{Answer: r.Answer, By: r.Solver, Secs: r.Secs, Results: []SolverResult{r}}
+					if v.Answer == "timeout" || v.Answer == "error" {
+						v.Answer = "unknown"
+					}
+				} else {
+					v = race(tmp, base, text, timeoutS, true)
+				}
 				if o.Cover {
 					// vacuity guard: must NOT be unsat
 					switch v.Answer {
